@@ -93,6 +93,9 @@ def run(tier):
         if a:
             raise ToolError("binding self-test failed: retry of a non-idempotent request after Overloaded accepted")
         v.add(binding_selftest="a record retrying a non-idempotent request after Overloaded is rejected")
+    # ---- end to end: the same error sequences injected by the mock cluster, frames counted (a real Session per scenario)
+    from e2e import run_e2e
+    run_e2e(v, wd, tier, "retry")
     v.add(drift=sorted(set(drift_all))[:10])
     v.assumptions += ["the history-tree walk emulates the loop; phase 2b drives the real loop (run_request_no_side_effects) with synthetic attempts on dummy connections",
                       "custom user retry policies are out of scope",
